@@ -354,7 +354,7 @@ class Gen:
                 branches.append(('cat', [('tok', t), ('rule', rr)]))
             else:
                 branches.append(('tok', t))
-        if len(branches) < 2:
+        if len(branches) < 2 or not any(b[0] == 'tok' or (b[0] == 'cat' and b[1][0][0] == 'tok' and all(x != ('rule', nm) for x in b[1])) for b in branches):
             branches.append(('tok', self.rng.choice(self.pool)))
         # the tokens used as operators must not be reused as followers elsewhere: remove from pool
         self.pool = [t for t in self.pool if t not in used] or self.pool
@@ -420,6 +420,8 @@ class Deriver:
     def d(self, r, depth):
         rng = self.rng
         k = r[0]
+        if depth > 80:
+            return []
         if k == 'tok':
             return [r[1]]
         if k == 'rule':
